@@ -234,6 +234,29 @@ def run_case(case, ctx):
             else:
                 ctx.require("ft-roundtrip", False, dict(detu, what="shape"))
             axes_equal(ctx, "ft-roundtrip-axis", t, fu2.axis, detu)
+            # the same function objects after their values were changed IN PLACE (a program that rescales or filters what it has): the
+            # transforms follow the values the objects hold at the time of the call
+            with ctx.lib("transforms repeated after the values were changed in place"):
+                fd_ = f.data
+                fd_ *= 1.7
+                fd_[N - 1] += 0.3
+                y_new = numpy.array(f.data, dtype=complex)
+                F_new = numpy.array(f.get_Fourier_transform().data)
+                Fdat_ = F.data
+                Fdat_ *= 0.5
+                inv_new = numpy.array(F.get_inverse_Fourier_transform().data)
+            if atype == "complete":
+                ref_new = fourier.direct_ft(t.data, y_new, wdata, dt)
+            else:
+                tt_, yy_ = fourier.hermitian_extension(t.data, y_new)
+                ref_new = fourier.direct_ft(tt_, yy_, wdata, dt)
+            if F_new.shape == ref_new.shape and inv_new.shape == y.shape:
+                ctx.check("ft==direct-sum", float(numpy.max(numpy.abs(F_new - ref_new))), ft_bound(nterms, y_new, dt),
+                          dict(det, what="second transform of the same object after an in-place change of its values"))
+                ctx.check("ft-roundtrip", float(numpy.max(numpy.abs(inv_new - 0.5 * y))), 64 * EPS * nterms * ymax + 1e-300,
+                          dict(det, what="inverse transform of a spectrum that was rescaled in place after a first inverse transform"))
+            else:
+                ctx.require("ft==direct-sum", False, dict(det, what="shape after in-place change"))
             nz = int(numpy.count_nonzero(y))
             ctx.sub(("ft", N, atype, kind), nontrivial=(N >= 3 and (nz >= 2 or kind == "delta")))
 
